@@ -13,10 +13,7 @@ Collect ==
 InitX == Init /\ TLCSet(1, <<>>)
 LawsOrSignature == (Transparent2(st, I) /\ Stream2(st, I)) <=> (Sig = {})
 NoOtherDifference == "OtherOrder" \notin Sig /\ "StreamDiffers" \notin Sig
-\* the loop and with statements are run for real (TraceXformStmts): targets without a repeated name
-RECURSIVE TNames(_)
-TNames(t) == CASE t.t \in {"name", "star"} -> <<t.v>> [] t.t = "tuple" -> Cat(LAMBDA i : TNames(t.elts[i]), Len(t.elts)) [] OTHER -> <<>>
-Distinct(q) == \A i, j \in DOMAIN q : i # j => q[i] # q[j]
-Export == (st.s \in {"for", "with"} /\ st.t # NoT /\ Distinct(TNames(st.t)) /\ ("*" \in I \/ "o" \notin I)) => PrintT(<<"STMT", ToJson(st), ToJson(I)>>)
+\* the loop and with statements are run for real (TraceXformStmts)
+Export == (st.s \in {"for", "with"} /\ st.t # NoT /\ ("*" \in I \/ "o" \notin I)) => PrintT(<<"STMT", ToJson(st), ToJson(I)>>)
 Report == \A s \in DOMAIN TLCGet(1) : PrintT(<<"SIGNATURE", s, TLCGet(1)[s][1], TLCGet(1)[s][2]>>)
 =============================================================================
